@@ -5,8 +5,14 @@ import CssVerif.Model.Media
 `Choice.nextProd` (`prodparser.py:94-121`), `Sequence.nextProd` (`:189-236`), `Sequence.matches` / `Choice.matches`,
 `ProdParser.parse` (`:438-693`) with the module-level `savedTokens` list and the tokenizer's `_pushed` queue as
 explicit state, ported from the validated functional rendering `design-notes/engine_reference.py` and brought up to
-the current code (`_SorTokens` is a single wrap behind the `_sor` flag — not reachable from the media grammars, which
-have no `nextSor` production; `stopIfNoMoreMatch` of `media_type` follows `_partof`).
+the current code. `_SorTokens` (`prodparser.py:403-441`: behind the `_sor` flag it drops an S — since f1e0059 a whole
+run of S tokens — that stands before `,` `/` or a comment) wraps the token stream only after a production with
+`nextSor=True` has matched (`prodparser.py:637-645`); the media grammars have no such production
+(`Lemmas/MediaEngine.media_grammars_never_reach_SorTokens`, re-checked against the captured trees on every run), so
+it is not part of this model and a `nextSor` production makes the engine answer `unsupported`. Runs of S tokens do
+reach the media parsers (token lists of a sheet parsed with `parseComments=False`); there every S is skipped by the
+default S handling of `parse` (`prodparser.py:531-536`), which `mainLoop` mirrors. `stopIfNoMoreMatch` of
+`media_type` follows `_partof`.
 
 The grammar trees are data: `Gen/C17Grammar.lean` holds the `MediaList` and `MediaQuery` trees as captured from the
 live objects on every run (structure, min/max, optional / stop / stopAndKeep / stopIfNoMoreMatch / nextSor / mayEnd,
@@ -70,6 +76,17 @@ abbrev St := List (Nat × NState)
 
 def St.get (st : St) (id : Nat) : Option NState := (st.find? (·.1 == id)).map (·.2)
 def St.set (st : St) (id : Nat) (v : NState) : St := (id, v) :: st.filter (·.1 != id)
+
+mutual
+/-- no production of the tree has `nextSor` or `stopAndKeep` (the parts of `parse` this model leaves out) -/
+def Node.plain : Node → Bool
+  | .prod _ f => !f.nextSor && !f.stopAndKeep
+  | .seq _ _ _ kids => plainKids kids
+  | .choice _ _ kids => plainKids kids
+def plainKids : List Node → Bool
+  | [] => true
+  | k :: r => k.plain && plainKids r
+end
 
 def Node.optional : Node → Bool
   | .prod _ f => f.optional
